@@ -306,10 +306,13 @@ class ResourceMap:
         Internal implementation is recursive, hence extremely deep
         nested resource maps are not ideal.
         """
-        # Set valid identifiers as slots
+        # Set valid identifiers as slots. Names like ``__x`` would be
+        # mangled by the class statement (slot ``_StaticSubmap__x``),
+        # so they go into the instance dict like non identifiers
         slots_resources = tuple(filter(
-            lambda x: x.isidentifier(), chain(self.handles.keys(),
-                                              self.maps.keys())))
+            lambda x: x.isidentifier() and not (x.startswith('__')
+                                                and not x.endswith('__')),
+            chain(self.handles.keys(), self.maps.keys())))
 
         # Don't add a dict if all the resources can be encoded into
         # slots
